@@ -87,6 +87,7 @@ def check(ctx):
               "the final response must carry the chain of redirect responses in order")
     ini = P.own_method("__init__")
     ctx.check("splits.hostname or hostname" in src(ini), "D7-relative", ini, "Patron.__init__ defaults splits.hostname (sibling idiom)", "")
+    path_decoded_once(ctx)
     defect_scope(ctx, "D-scope", [rd], max_depth=1, floor=1, label="scope: Patron.redirect")
     # every decision taken from the redirect's scheme/host/port (secured, default port, downgrade guard, connector) reads them
     # only after the relative-Location defaulting has been decided
@@ -116,3 +117,21 @@ def check(ctx):
               "redirected to a relative Location as plain http: the downgrade guard raises and the redirect is never followed")
     from .c30 import plus_decoders
     plus_decoders(ctx, "T3-chain")
+
+
+def path_decoded_once(ctx):
+    """Requester.build percent-encodes the path it is given (quote(self.path)); Patron.redirect must therefore hand it the
+    *decoded* path of the Location - decoded exactly once - or `%20` goes out as `%2520`"""
+    ctx.rule("T7-quote", "Patron.redirect passes a percent-decoded path (through unquote) to transmit(); Requester.build quotes it again")
+    P = ctx.cls("aio.http.clienting", "Patron")
+    V = FuncView(ctx, P.own_method("redirect"))
+    tr = V.need(V.calls("self.transmit"), "self.transmit(...) in Patron.redirect")
+    n, c = tr[0]
+    pa = [k.value for k in c.keywords if k.arg == "path"]
+    val = src(V.sym(pa[0], n, depth=8)) if pa else "?"
+    ctx.check(bool(pa) and val.count("unquote(") >= 1, "T7-quote", c, "redirect: transmit(path=%s)" % val[:70],
+              "the Location's path is handed on still percent-encoded and Requester.build encodes it again: `/annual%20report` is "
+              "requested as `/annual%2520report`")
+    rb = ctx.cls("aio.http.clienting", "Requester").own_method("build")
+    ctx.check(any(isinstance(x, ast.Call) and (call_name(x) or "").split(".")[-1] == "quote" and x.args and src(x.args[0]) in ("self.path", "path")
+                  for x in ast.walk(rb)), "T7-quote", rb, "Requester.build quotes the path", "the request target must be percent-encoded exactly once")
